@@ -84,6 +84,50 @@ def harness(ctx, case):
     return out
 
 
+CONTEXTS = [('', ''), ('let a = ', ';'), ('let a = [1, ', '];'), ('let a = "', '";'), ('let a = 1 ', ' 2;'), ('let a = {', ' = 1};'), ('let f = func (', ') => 1;'),
+            ('let a = 1;\n', ''), ('let a = 1.', ';'), ('let a = t.', ';'), ('let a = "@', '" % (1);')]
+
+
+def harness_garbage(ctx, case):
+    """`n` fully symbolic ASCII bytes (0x01..0x7f) inside a fixed context through the real tokenizer / parser / evaluator"""
+    prog = ctx.prog
+    from mirsym.vals import NONE, VecV, CellV, Ref
+    pre, suf = case['ctx']
+    syms = []
+    for j in range(case['n']):
+        v = ctx.bv('g%d' % j, 8)
+        ctx.assume(z3.And(z3.UGE(v, 1), z3.ULT(v, 0x80)))
+        syms.append(v)
+    text = SymStr(tuple(pre.encode()) + tuple(syms) + tuple(suf.encode()))
+    out = {'reached': True, 'asserts': 1, 'violations': []}
+    stage = 'tokenize'
+    try:
+        if case['stage'] == 'tokenize':
+            r = ctx.call('tokenizer::tokenize', [ctx.call('OffsetStrIter::new', [text]), NONE])
+            out['sample'] = {'stage': 'tokenize', 'context': case['ctx'], 'n': case['n'], 'result': 'Ok' if r.variant == 0 else 'Err'}
+            return out
+        stage = 'parse'
+        r = ctx.call('parse', [ctx.call('OffsetStrIter::new', [text]), NONE])
+        if r.variant == 0 and case['stage'] == 'eval':
+            stage = 'evaluate'
+            env = ucgrun.make_env(ctx)
+            fb = ctx.call('FileBuilder::new', [prog.to_path('/wd'), VecV([]), env])
+            cell = CellV(fb)
+            rr = Ref(cell.slot, 0, ())
+            res = ctx.call('FileBuilder::eval_stmts', [rr, r.fields[0], NONE])
+            out['sample'] = {'stage': 'eval', 'context': case['ctx'], 'n': case['n'], 'result': 'Ok' if res.variant == 0 else 'Err'}
+        else:
+            out['sample'] = {'stage': 'parse', 'context': case['ctx'], 'n': case['n'], 'result': 'Ok' if r.variant == 0 else 'Err'}
+    except interp.Panic as p:
+        m = ctx.model()
+        bs = bytes(m.eval(x, model_completion=True).as_long() for x in syms)
+        t = pre + bs.decode('latin-1') + suf
+        site = panic_site(ctx, p)
+        out['violations'].append({'key': 'C04:panic:garbage-%s:%s' % (stage, site), 'what': 'panic (%s) in stage %s on the text %r' % (p.msg[:80], stage, t),
+                                  'case': {'kind': 'eval', 'text': t, 'strict': True}})
+    return out
+
+
 def panic_site(ctx, p):
     st = ctx.fail_stack or []
     names = [s.split('::')[-1] for s in st if not s.startswith('bb')]
@@ -101,6 +145,11 @@ def run(fw):
                       'list selection with symbolic indices; format templates of 0..%d symbolic printable-ASCII bytes with 0..2 arguments in every argument form' % (3 if fw.tier == 'quick' else 4),
                       'outside': 'non-termination, stack exhaustion, arbitrary text up to 4 KiB, token-level mutations of corpus files, exit status of the binary'})
     fw.explore('vm-kernels', harness, cs, fuel=20_000_000)
+    quick = fw.tier == 'quick'
+    g = [{'stage': 'tokenize', 'ctx': c, 'n': n} for c in (CONTEXTS[:2] if quick else CONTEXTS[:5]) for n in ((1, 2) if quick else (1, 2, 3))]
+    g += [{'stage': 'eval', 'ctx': c, 'n': n} for c in CONTEXTS for n in ((1,) if quick else (1, 2))]
+    fw.bounds['garbage'] = '%d contexts with 1..%d (tokenizer) / 1..%d (parser + evaluator) fully symbolic ASCII bytes (0x01..0x7f) spliced in' % (len(CONTEXTS), 2 if quick else 3, 1 if quick else 2)
+    fw.explore('garbage', harness_garbage, g, fuel=400_000_000)
     for v in fw.violations:
         v['judge'] = judge
     fw.assumptions += ['dev profile (overflow-checks on), as the native dev build and the test suite use; release builds wrap instead of panicking on overflow',
